@@ -66,7 +66,7 @@ def required_reach(tier: str) -> dict[str, int]:
             if k != "silence":
                 r[f"cell:{t}:{k}:no-timeout"] = 3
         r[f"recovered:{t}"] = 3
-    r.update({"cut.mid-header": 10, "cut.mid-payload": 10, "cut.frame-boundary": 6, "close-twice": 100, "real.cases": 10, "real.recovered": 2})
+    r.update({"client.cut-after-pending": 20, "client.second-connection-silent": 10, "cut.mid-header": 10, "cut.mid-payload": 10, "cut.frame-boundary": 6, "close-twice": 100, "real.cases": 10, "real.recovered": 2})
     return r
 
 
@@ -80,13 +80,20 @@ def uri(t: str) -> str:
     return "unix-lines:///nonexistent/vf.sock"
 
 
-def peer_stream(t: str) -> list[tuple[str, bytes]]:
-    """frames the peer sends for connect + one exchange"""
+PENDING = bytes([0x7F, 0x22, 0x78])
+
+
+def peer_stream(t: str, pending: bool = False) -> list[tuple[str, bytes]]:
+    """frames the peer sends for connect + one exchange (optionally a responsePending before the final reply)"""
     if t == "doip":
-        return [("rar", c06.f_rar(3, SRC, TGT, 0x10)), ("ack", c06.f_ack(3, TGT, SRC, REQ)), ("reply", c06.f_diag(3, TGT, SRC, REPLY))]
+        fr = [("rar", c06.f_rar(3, SRC, TGT, 0x10)), ("ack", c06.f_ack(3, TGT, SRC, REQ))]
+        fr += [("pending", c06.f_diag(3, TGT, SRC, PENDING))] if pending else []
+        return fr + [("reply", c06.f_diag(3, TGT, SRC, REPLY))]
     if t == "hsfz":
-        return [("ack", c07.fr(0x02, bytes([HS, HD]) + REQ[:5])), ("reply", c07.fr(0x01, bytes([HD, HS]) + REPLY))]
-    return [("reply", hexlify(REPLY) + b"\n")]
+        fr = [("ack", c07.fr(0x02, bytes([HS, HD]) + REQ[:5]))]
+        fr += [("pending", c07.fr(0x01, bytes([HD, HS]) + PENDING))] if pending else []
+        return fr + [("reply", c07.fr(0x01, bytes([HD, HS]) + REPLY))]
+    return ([("pending", hexlify(PENDING) + b"\n")] if pending else []) + [("reply", hexlify(REPLY) + b"\n")]
 
 
 def transport_class(t: str) -> Any:
@@ -117,13 +124,18 @@ def split_for(t: str) -> Any:
 
 def make_factory(sc: dict[str, Any], gws: list[gateway.Gateway], t0: list[float]) -> Any:
     t = sc["transport"]
-    frames = peer_stream(t)
+    frames = peer_stream(t, sc.get("pending", False))
+    byl = dict(frames)
 
     def factory(n: int) -> Any:
         loop = asyncio.get_running_loop()
         if n > 1 and loop.time() < t0[0] + sc.get("restart_at", 0.0):
             return ConnectionRefusedError("peer not accepting yet")
         g = gateway.Gateway(split_for(t))
+        if n == 2 and sc.get("second_silent"):
+            # the restarting gateway accepts the TCP connection but does not talk yet
+            gws.append(g)
+            return g
         healthy = n > 1 or sc["cut_at"] is None
         if not healthy:
             g.limit_bytes = sc["cut_at"]
@@ -136,16 +148,22 @@ def make_factory(sc: dict[str, Any], gws: list[gateway.Gateway], t0: list[float]
             if t == "doip":
                 pt = struct.unpack("!H", f[2:4])[0]
                 if pt == 0x0005:
-                    g.send(0.01, frames[0][1], "rar")
+                    g.send(0.01, byl["rar"], "rar")
                 elif pt == 0x8001:
-                    g.send(0.01, frames[1][1], "ack")
-                    g.send(0.02, frames[2][1], "reply")
+                    g.send(0.01, byl["ack"], "ack")
+                    if "pending" in byl:
+                        g.send(0.015, byl["pending"], "pending")
+                    g.send(0.02, byl["reply"], "reply")
             elif t == "hsfz":
                 if f[4:6] == b"\x00\x01":
-                    g.send(0.01, frames[0][1], "ack", header_len=6)
-                    g.send(0.02, frames[1][1], "reply", header_len=6)
+                    g.send(0.01, byl["ack"], "ack", header_len=6)
+                    if "pending" in byl:
+                        g.send(0.015, byl["pending"], "pending", header_len=6)
+                    g.send(0.02, byl["reply"], "reply", header_len=6)
             else:
-                g.send(0.02, frames[0][1], "reply", header_len=0)
+                if "pending" in byl:
+                    g.send(0.015, byl["pending"], "pending", header_len=0)
+                g.send(0.02, byl["reply"], "reply", header_len=0)
 
         g.on_client_frame = on_frame
         gws.append(g)
@@ -229,11 +247,11 @@ async def run_client_level(sc: dict[str, Any]) -> dict[str, Any]:
         return out
 
 
-def frame_position(t: str, k: int) -> tuple[str, str]:
+def frame_position(t: str, k: int, pending: bool = False) -> tuple[str, str]:
     """(frame label the cut falls into / 'end', where: boundary|mid-header|mid-payload)"""
     off = 0
     hl = {"doip": 8, "hsfz": 6}.get(t, 0)
-    for lab, f in peer_stream(t):
+    for lab, f in peer_stream(t, pending):
         if k == off:
             return lab, "boundary"
         if k < off + len(f):
@@ -324,11 +342,17 @@ def reconnect_in_time(sc: dict[str, Any], out: dict[str, Any]) -> bool:
 
 def check_client(ctx: Any, sc: dict[str, Any], out: dict[str, Any]) -> None:
     t = sc["transport"]
-    frames = peer_stream(t)
+    frames = peer_stream(t, sc.get("pending", False))
     total = sum(len(f) for _, f in frames)
     k = sc["cut_at"] if sc["cut_at"] is not None else total + 1
     w = {"scenario": sc, "out": {a: b for a, b in out.items()}}
-    lab, where = frame_position(t, min(k, total))
+    lab, where = frame_position(t, min(k, total), sc.get("pending", False))
+    if sc.get("pending"):
+        ctx.reach("client.pending-variant")
+        if lab in ("reply", "end") and k <= total:
+            ctx.reach("client.cut-after-pending")
+    if sc.get("second_silent"):
+        ctx.reach("client.second-connection-silent")
     ctx.reach(f"cut.{where if where != 'boundary' else 'frame-boundary'}")
     if "connect_exc" in out:
         return  # handshake cut: covered at transport level
@@ -346,7 +370,7 @@ def check_client(ctx: Any, sc: dict[str, Any], out: dict[str, Any]) -> None:
             return
         if k <= total and out["accepted"] >= 2:
             ctx.reach(f"recovered:{t}")
-            if out["accepted"] != 2 and False:
+            if out["accepted"] != (3 if sc.get("second_silent") else 2) and False:
                 ctx.violation(f"{t}/client/connections-per-reconnect", f"the peer saw {out['accepted']} connections for one reconnect", w)
         return
     # failure: allowed when the statement does not promise recovery
@@ -368,13 +392,13 @@ def check_client(ctx: Any, sc: dict[str, Any], out: dict[str, Any]) -> None:
 
 
 def one(ctx: Any, sc: dict[str, Any]) -> None:
-    total = sum(len(f) for _, f in peer_stream(sc["transport"]))
+    total = sum(len(f) for _, f in peer_stream(sc["transport"], sc.get("pending", False)))
     ctx.case(repr(sc), nontrivial=sc["cut_at"] is not None and sc["cut_at"] < total)
     coro = run_client_level(sc) if sc["level"] == "client" else run_transport_level(sc)
     try:
         out = vtime.run(coro)
     except vtime.Deadlock:
-        lab, where = frame_position(sc["transport"], sc["cut_at"] or 0)
+        lab, where = frame_position(sc["transport"], sc["cut_at"] or 0, sc.get("pending", False))
         ctx.violation(f"{sc['transport']}/{sc['level']}/blocks-forever/{sc['kind']}/{'timeout' if sc['timeout'] is not None else 'no-timeout'}/cut-in-{lab}",
                       "the pending operation can never complete after the connection was cut (nothing scheduled, nothing readable)", {"scenario": sc})
         return
@@ -507,8 +531,20 @@ def run(ctx: Any, params: dict[str, Any]) -> None:
                             if mr == 2 and (k % 2 or d == 0.05):
                                 continue
                             one(ctx, {"transport": t, "level": "client", "cut_at": k, "kind": kind, "timeout": rng.choice([0.3, 2.0]), "restart_at": d, "max_retry": mr})
+                    if t == "doip" and kind != "silence":
+                        # the restarting gateway accepts the first reconnect but stays silent on routing activation; later connections work
+                        one(ctx, {"transport": t, "level": "client", "cut_at": k, "kind": kind, "timeout": 2.0, "restart_at": 0.0, "max_retry": 1, "second_silent": True})
             if ctx.out_of_time():
                 break
+        if params["client"]:
+            # responsePending first, then the connection is lost at every offset of pending + final reply
+            pframes = peer_stream(t, True)
+            ptotal = sum(len(f) for _, f in pframes)
+            start = sum(len(f) for l, f in pframes if l in ("rar", "ack"))
+            for k in range(start, ptotal + 1, params["step"]):
+                for kind in ("eof", "reset"):
+                    for mr in (1, 2):
+                        one(ctx, {"transport": t, "level": "client", "cut_at": k, "kind": kind, "timeout": rng.choice([0.3, 2.0]), "restart_at": 0.0, "max_retry": mr, "pending": True})
         ctx.sample({"transport": t, "peer_stream": [(l, f) for l, f in frames], "offsets": offsets[:12]})
         return
     # real sockets
